@@ -30,7 +30,7 @@ def tagOf (locked : Bool) (pc : PC) : String :=
   | .enqSplice => "cs" | .enqReadEmpty => "q.empty" | .enqReadEc => "ec.load" | .enqReadNc => "nc.load" | .enqNotify => "notify"
   | .procPre _ => "q.empty" | .procInc _ => "ec++" | .procTake _ => "cs"
   | .procLoop m _ _ _ => if m ≥ 2 then "pred" else "cb"
-  | .procPutBack _ _ => "cs" | .procDec _ => "ec--"
+  | .procPutBack _ _ => "cs" | .procPbReadNc _ => "nc.load" | .procPbNotify _ => "notify" | .procDec _ => "ec--"
   | .takePre | .peekPre | .clearPre => "q.empty" | .takeLocked | .peekLocked | .clearLocked => "cs"
   | .emptyRead1 _ => "q.empty" | .emptyRead2 _ => "ec.load"
   | .waitLock _ => "cs" | .waitRead1 _ _ => "q.empty" | .waitRead2 _ _ => "ec.load" | .waitRead3 _ _ _ => "nc.load"
